@@ -273,8 +273,8 @@ def frameOf (o : Quic.Session.Out) : UdpOut.Frame :=
 def addressed (c : QConn) (d : UdpOut.Dgram) : Pipeline.OutPkt :=
   let sp := TcpOut.exportedServerPort c.opts.keep (Pipeline.portmapFn c.opts.portmap) c.server.port
   let s : MainLoop.Endpoint := ⟨c.server.ip, sp⟩
-  if d.isServer then ⟨d.ts, c.serverMac, c.clientMac, s, c.client, c.ipv6, 0, 0, 0, d.payload⟩
-  else ⟨d.ts, c.clientMac, c.serverMac, c.client, s, c.ipv6, 0, 0, 0, d.payload⟩
+  if d.isServer then ⟨d.ts, c.serverMac, c.clientMac, s, c.client, c.ipv6, 0, 0, 0, d.payload, true⟩
+  else ⟨d.ts, c.clientMac, c.serverMac, c.client, s, c.ipv6, 0, 0, 0, d.payload, true⟩
 
 /-- `build_output(metadata)` -/
 def connOut (metadata : Bool) (c : QConn) : List Pipeline.OutPkt :=
